@@ -91,7 +91,7 @@ def name_lengths():
     steps.append({"ev": "reset", "mode": "hard", "arg": esc("HEAD@{3}")})
     steps.append({"ev": "lsfiles"})
     steps.append({"ev": "status"})
-    save("name_lengths", ["C05", "C06", "C02", "C04", "C08", "C09", "C13", "C03", "C07", "C01"], steps)
+    save("name_lengths", ["C05", "C06", "C02", "C04", "C08", "C09", "C13", "C03", "C07", "C01", "C18"], steps)
 
 
 def big_index():
@@ -797,6 +797,264 @@ def revparse_orders():
     save("revparse_orders", ["C10"], steps)
 
 
+def nested_removal():
+    """files are removed only inside nested sub-directories, so that the number of paths left beneath a directory equals the
+    number of its direct children in the previous snapshot; a commit must still record exactly what is staged"""
+    steps = head()
+    for p_ in ("README", "docs/api/index.md", "docs/api/errors.md", "src/main.go", "src/util/a.go", "src/util/b.go",
+               "src/gen/x.go", "src/gen/y.go", "src/gen/z.go", "t/u/v/one", "t/u/v/two", "t/u/w"):
+        steps.append(w(p_, p_ + "\n"))
+    steps.append({"ev": "add", "paths": ["."]})
+    steps.append({"ev": "commit", "msg": "base"})
+    steps.append({"ev": "rm", "paths": ["docs/api/errors.md"]})         # docs: 1 child (api), 1 path left
+    steps.append({"ev": "writetree"})
+    steps.append({"ev": "commit", "msg": "one"})
+    steps.append({"ev": "lsfiles"})
+    steps.append({"ev": "status"})
+    steps.append({"ev": "rm", "paths": ["src/util/b.go", "src/gen/y.go", "src/gen/z.go"]})   # src: 3 children, 3 paths left
+    steps.append(w("README", "changed\n"))
+    steps.append({"ev": "add", "paths": ["README"]})
+    steps.append({"ev": "commit", "msg": "two"})
+    steps.append({"ev": "status"})
+    steps.append({"ev": "rm", "paths": ["t/u/v/two"]})                  # t: 1 child, 2 paths left
+    steps.append({"ev": "commit", "msg": "three"})
+    steps.append({"ev": "rm", "paths": ["t/u/w"]})                      # t: 1 child, 1 path left
+    steps.append({"ev": "commit", "msg": "four"})
+    steps.append({"ev": "status"})
+    steps.append({"ev": "reset", "mode": "hard", "arg": esc("HEAD@{0}")})
+    steps.append({"ev": "lsfiles"})
+    steps.append({"ev": "status"})
+    steps.append({"ev": "catfile", "flag": "p", "idref": "tree:0"})
+    steps.append({"ev": "log", "n": 5})
+    save("nested_removal", ["C05", "C02", "C07", "C08", "C01"], steps)
+
+
+def tracked_ignored_ops():
+    """files tracked before an ignore rule matched them, taken through rm, restore --staged, commit, the three reset modes and status"""
+    steps = head()
+    for p_ in ("main.txt", "trace.log", "build/out.txt", "a.txt"):
+        steps.append(w(p_, p_ + " v1\n"))
+    steps.append({"ev": "add", "paths": ["."]})
+    steps.append({"ev": "commit", "msg": "base"})
+    steps.append(w("trace.log", "trace two, longer\n"))
+    steps.append(w("build/out.txt", "out two\n"))
+    steps.append({"ev": "add", "paths": ["."]})
+    steps.append({"ev": "commit", "msg": "second"})
+    steps.append({"ev": "write", "p": ".goitignore", "data": "*.log\nbuild/\n", "old": False})   # not tracked itself
+    steps.append({"ev": "status"})
+    steps.append(w("trace.log", "scribble\n"))
+    steps.append({"ev": "status"})
+    steps.append({"ev": "reset", "mode": "hard", "arg": esc("HEAD@{0}")})   # a local edit of a tracked, ignored file
+    steps.append({"ev": "status"})
+    steps.append({"ev": "reset", "mode": "hard", "arg": esc("HEAD@{2}")})   # base: other bytes, no local edit
+    steps.append({"ev": "status"})
+    steps.append({"ev": "reset", "mode": "hard", "arg": esc("HEAD@{2}")})   # second again
+    steps.append({"ev": "status"})
+    steps.append({"ev": "rm", "paths": ["build/out.txt"]})
+    steps.append(w("a.txt", "a2\n"))
+    steps.append({"ev": "add", "paths": ["a.txt"]})
+    steps.append({"ev": "status"})                                        # a staged deletion of an ignored path is a staged change
+    steps.append({"ev": "commit", "msg": "third"})
+    steps.append({"ev": "status"})
+    steps.append({"ev": "reset", "mode": "soft", "arg": esc("HEAD@{1}")})
+    steps.append({"ev": "status"})
+    steps.append({"ev": "restores", "paths": ["build/out.txt"]})
+    steps.append({"ev": "status"})
+    steps.append({"ev": "lsfiles"})
+    steps.append({"ev": "reset", "mode": "mixed", "arg": esc("HEAD@{0}")})
+    steps.append({"ev": "status"})
+    steps.append({"ev": "remove", "p": "a.txt"})                          # a deletion next to a modified tracked, ignored file
+    steps.append(w("trace.log", "again\n"))
+    steps.append({"ev": "status"})
+    steps.append(w("build/out.txt", "out three\n"))
+    steps.append({"ev": "remove", "p": "main.txt"})
+    steps.append({"ev": "status"})
+    steps.append({"ev": "reset", "mode": "hard", "arg": esc("HEAD@{0}")})
+    steps.append({"ev": "status"})
+    save("tracked_ignored_ops", ["C07", "C08", "C13", "C17"], steps)
+
+
+def restore_staged_mix():
+    """restore --staged of a directory that holds a newly staged file, a staged modification and a staged deletion in every order"""
+    steps = head()
+    for p_ in ("d/keep.txt", "d/mod.txt", "d/gone.txt", "top.txt", "zz.txt", "e/m1", "e/m2"):
+        steps.append(w(p_, p_ + "\n"))
+    steps.append({"ev": "add", "paths": ["."]})
+    steps.append({"ev": "commit", "msg": "base"})
+    steps.append(w("d/a_new.txt", "new\n"))                              # sorts before the modified file
+    steps.append(w("d/mod.txt", "modified\n"))
+    steps.append({"ev": "add", "paths": ["d"]})
+    steps.append({"ev": "restores", "paths": ["d"]})
+    steps.append({"ev": "lsfiles"})
+    steps.append(w("d/z_new.txt", "new\n"))                              # sorts after it
+    steps.append({"ev": "add", "paths": ["d"]})
+    steps.append({"ev": "rm", "paths": ["d/gone.txt"]})
+    steps.append({"ev": "restores", "paths": ["d"]})
+    steps.append({"ev": "lsfiles"})
+    steps.append({"ev": "status"})
+    steps.append(w("zzz_last.txt", "last\n"))                            # the new file is the last entry of the staging area
+    steps.append(w("e/m1", "m1 changed\n"))
+    steps.append({"ev": "add", "paths": ["zzz_last.txt", "e"]})
+    steps.append({"ev": "restores", "paths": ["zzz_last.txt", "e/m1"]})
+    steps.append({"ev": "lsfiles"})
+    steps.append({"ev": "remove", "p": "e/m2"})                            # add: a deleted path named before a modified one
+    steps.append(w("e/m1", "m1 again\n"))
+    steps.append({"ev": "add", "paths": ["e/m2", "e/m1"]})
+    steps.append({"ev": "lsfiles"})
+    steps.append({"ev": "rm", "paths": ["top.txt", "d"]})
+    steps.append({"ev": "lsfiles"})
+    steps.append({"ev": "status"})
+    save("restore_staged_mix", ["C09", "C04", "C06"], steps)
+
+
+def add_dir_member():
+    """add of a directory followed by a member that is tracked and gone from the working tree, in both orders and through '.'"""
+    steps = head()
+    for p_ in ("src/a.txt", "src/b.txt", "src/c.txt", "c.txt", "s/x", "s/y"):
+        steps.append(w(p_, p_ + "\n"))
+    steps.append({"ev": "add", "paths": ["."]})
+    steps.append({"ev": "commit", "msg": "base"})
+    steps.append({"ev": "remove", "p": "src/b.txt"})
+    steps.append(w("src/a.txt", "a changed\n"))
+    steps.append({"ev": "add", "paths": ["src", "src/b.txt"]})
+    steps.append({"ev": "lsfiles"})
+    steps.append({"ev": "remove", "p": "s/x"})
+    steps.append({"ev": "add", "paths": [".", "s/x"]})
+    steps.append({"ev": "lsfiles"})
+    steps.append({"ev": "remove", "p": "src/c.txt"})
+    steps.append({"ev": "add", "paths": ["src/c.txt", "src"]})
+    steps.append({"ev": "lsfiles"})
+    steps.append({"ev": "remove", "p": "s/y"})
+    steps.append({"ev": "add", "paths": ["s", "src", "s/y"]})             # the directory has no file left
+    steps.append({"ev": "lsfiles"})
+    steps.append({"ev": "status"})
+    save("add_dir_member", ["C04", "C06"], steps)
+
+
+def affix_branches():
+    """branches whose names are a prefix or a suffix of one another: switch and rename between them in both directions"""
+    steps = head()
+    steps.append(w("a", "1"))
+    steps.append({"ev": "add", "paths": ["a"]})
+    steps.append({"ev": "commit", "msg": "one"})
+    steps.append({"ev": "branch", "name": "fix"})
+    steps.append({"ev": "switchc", "name": "hotfix"})
+    steps.append(w("a", "2"))
+    steps.append({"ev": "add", "paths": ["a"]})
+    steps.append({"ev": "commit", "msg": "two"})
+    steps.append({"ev": "switch", "name": "fix"})                        # from hotfix to its suffix, at another commit
+    steps.append({"ev": "reflog"})
+    steps.append({"ev": "status"})
+    steps.append({"ev": "switch", "name": "hotfix"})
+    steps.append({"ev": "reflog"})
+    steps.append({"ev": "branchr", "name": "hotfix2"})
+    steps.append(w("a", "3"))
+    steps.append({"ev": "add", "paths": ["a"]})
+    steps.append({"ev": "commit", "msg": "three"})
+    steps.append({"ev": "branchr", "name": "hotfix"})                    # back to the prefix of the current name
+    steps.append({"ev": "status"})
+    steps.append({"ev": "log", "n": 5})
+    steps.append({"ev": "branchlist"})
+    steps.append({"ev": "branchr", "name": "fix2"})                      # hotfix -> fix2: no relation to hotfix, prefix fix exists
+    steps.append({"ev": "switch", "name": "fix"})
+    steps.append({"ev": "reflog"})
+    steps.append({"ev": "switch", "name": "main"})
+    steps.append({"ev": "branchr", "name": "main-old"})
+    steps.append(w("a", "4"))
+    steps.append({"ev": "add", "paths": ["a"]})
+    steps.append({"ev": "commit", "msg": "four"})
+    steps.append({"ev": "branchr", "name": "main"})
+    steps.append({"ev": "status"})
+    steps.append({"ev": "log", "n": 5})
+    steps.append({"ev": "switchc", "name": "ain"})                       # a suffix of main
+    steps.append({"ev": "switch", "name": "main"})
+    steps.append({"ev": "switch", "name": "ain"})
+    steps.append({"ev": "branchd", "name": "main"})
+    steps.append({"ev": "branchlist"})
+    steps.append({"ev": "reflog"})
+    steps.append({"ev": "revparse", "names": ["HEAD", "ain", "fix", "fix2"]})
+    steps.append({"ev": "reset", "mode": "soft", "arg": esc("HEAD@{3}")})
+    steps.append({"ev": "reflog"})
+    save("affix_branches", ["C11", "C03", "C10", "C14"], steps)
+
+
+def key_case():
+    """configuration keys that differ from the identity keys in letter case only are other keys"""
+    steps = [{"ev": "init"}]
+    steps.append({"ev": "config", "key": "user.Name", "value": esc("Bob Builder")})
+    steps.append({"ev": "config", "key": "user.email", "value": "bob@example.com"})
+    steps.append(w("a", "1"))
+    steps.append({"ev": "add", "paths": ["a"]})
+    steps.append({"ev": "commit", "msg": "refused"})                     # no name is configured
+    steps.append({"ev": "config", "global": True, "key": "user.NAME", "value": esc("Global Bob")})
+    steps.append({"ev": "commit", "msg": "refused2"})
+    steps.append({"ev": "config", "key": "user.name", "value": esc("Real Bob")})
+    steps.append({"ev": "commit", "msg": "one"})
+    steps.append({"ev": "log", "n": 1})
+    steps.append({"ev": "config", "key": "user.Email", "value": "other@example.com"})
+    steps.append(w("a", "2"))
+    steps.append({"ev": "add", "paths": ["a"]})
+    steps.append({"ev": "commit", "msg": "two"})                         # the e-mail in effect is still bob@example.com
+    steps.append({"ev": "log", "n": 2})
+    save("key_case", ["C20", "C12", "C02"], steps)
+    # the other half: only the e-mail is spelled in another case
+    steps = [{"ev": "init"}]
+    steps.append({"ev": "config", "global": True, "key": "user.name", "value": esc("Carol C")})
+    steps.append({"ev": "config", "key": "user.Email", "value": "carol@example.com"})
+    steps.append(w("a", "1"))
+    steps.append({"ev": "add", "paths": ["a"]})
+    steps.append({"ev": "commit", "msg": "refused"})
+    steps.append({"ev": "lsfiles"})
+    steps.append({"ev": "config", "global": True, "key": "user.email", "value": "carol@example.org"})
+    steps.append({"ev": "commit", "msg": "one"})
+    steps.append({"ev": "log", "n": 1})
+    save("key_case2", ["C20", "C12"], steps)
+
+
+def fs_corpus3():
+    """reset --hard onto an empty file and away from it, for the fault enumeration"""
+    steps = head()
+    steps.append(w("notes.txt", ""))
+    steps.append(w("keep.txt", "k\n"))
+    steps.append({"ev": "add", "paths": ["."]})
+    steps.append({"ev": "commit", "msg": "base"})
+    steps.append(w("notes.txt", "remember the milk\n"))
+    steps.append({"ev": "add", "paths": ["notes.txt"]})
+    steps.append({"ev": "commit", "msg": "second"})
+    steps.append({"ev": "reset", "mode": "hard", "arg": esc("HEAD@{1}")})   # the target holds an empty file, the working tree a full one
+    steps.append({"ev": "reset", "mode": "hard", "arg": esc("HEAD@{1}")})   # and the other way round
+    steps.append(w("notes.txt", ""))
+    steps.append({"ev": "restore", "paths": ["notes.txt"]})
+    save("fs_corpus3", ["C16"], steps)
+
+
+def symlink_names():
+    """symbolic links with names that are not excluded, pointing at excluded files: add stages the link's own name"""
+    steps = head()
+    for p_ in ("build/out.o", "fw.bin", "src/main.txt", "README.txt"):
+        steps.append(w(p_, p_ + "\n"))
+    steps.append({"ev": "write", "p": ".goitignore", "data": "build/\n*.bin\n", "old": False})
+    steps.append({"ev": "symlink", "p": "latest", "to": "build/out.o"})
+    steps.append({"ev": "symlink", "p": "current", "to": "fw.bin"})
+    steps.append({"ev": "symlink", "p": "src/readme", "to": "README.txt"})
+    steps.append({"ev": "status"})
+    steps.append({"ev": "add", "paths": ["."]})
+    steps.append({"ev": "lsfiles"})
+    steps.append({"ev": "status"})
+    steps.append({"ev": "commit", "msg": "base"})
+    steps.append({"ev": "add", "paths": ["latest"]})
+    steps.append({"ev": "add", "paths": ["src", "current"]})
+    steps.append({"ev": "lsfiles"})
+    steps.append(w("build/out.o", "rebuilt\n"))
+    steps.append({"ev": "status"})
+    steps.append({"ev": "add", "paths": ["latest", "build/out.o"]})
+    steps.append({"ev": "lsfiles"})
+    steps.append({"ev": "add", "paths": ["."]})
+    steps.append({"ev": "lsfiles"})
+    steps.append({"ev": "status"})
+    save("symlink_names", ["C17", "C04"], steps)
+
+
 if __name__ == "__main__":
     name_lengths()
     big_index()
@@ -826,3 +1084,11 @@ if __name__ == "__main__":
     ignore_nested_args()
     spelled_rm()
     revparse_orders()
+    nested_removal()
+    tracked_ignored_ops()
+    restore_staged_mix()
+    add_dir_member()
+    affix_branches()
+    key_case()
+    fs_corpus3()
+    symlink_names()
